@@ -774,6 +774,7 @@ type job struct {
 	Seed   uint64 `json:"seed"`
 	Guide  string `json:"guide,omitempty"` // dot separated thread names
 	Budget int    `json:"budget,omitempty"`
+	TimeMs int    `json:"time_ms,omitempty"` // dfs: stop after this long
 }
 
 func emitViolations(w *bufio.Writer, r *run, j job, o outcome) int {
@@ -829,6 +830,7 @@ func childCtl() int {
 		switch j.Strat {
 		case "dfs":
 			d := &dfsState{maxDepth: 40 + 45*g.n}
+			t0 := time.Now()
 			n, pruned := 0, 0
 			exhausted := false
 			for {
@@ -851,6 +853,9 @@ func childCtl() int {
 					break
 				}
 				if j.Budget > 0 && n >= j.Budget {
+					break
+				}
+				if j.TimeMs > 0 && time.Since(t0) > time.Duration(j.TimeMs)*time.Millisecond {
 					break
 				}
 			}
@@ -1100,57 +1105,100 @@ func (p *parent) passLine(line string) {
 	}
 }
 
-// run controlled jobs in child processes; a child that dies (deadlock verdict, watchdog) is restarted after the job it died on
-func (p *parent) runJobs(jobs []job, perChild int, limit time.Duration) {
+// run controlled jobs in child processes, `par` at a time; a child that dies (deadlock verdict, watchdog) is
+// restarted after the job it died on
+func (p *parent) runJobs(jobs []job, perChild int, limit time.Duration, par int) {
 	deadline := time.Now().Add(limit)
-	for len(jobs) > 0 {
+	var mu sync.Mutex // guards jobs, p.stats, p.out
+	next := func() []job {
+		mu.Lock()
+		defer mu.Unlock()
+		if len(jobs) == 0 {
+			return nil
+		}
 		if time.Now().After(deadline) {
 			p.stats["jobs_not_run_time_budget"] += len(jobs)
-			return
+			jobs = nil
+			return nil
 		}
-		batch := jobs
-		if len(batch) > perChild {
-			batch = batch[:perChild]
+		n := perChild
+		if n > len(jobs) {
+			n = len(jobs)
 		}
-		cmd := exec.Command(p.exe, "-child", "ctl")
-		var in strings.Builder
-		for _, j := range batch {
-			b, _ := json.Marshal(j)
-			in.Write(b)
-			in.WriteByte('\n')
-		}
-		cmd.Stdin = strings.NewReader(in.String())
-		cmd.Stderr = os.Stderr
-		stdout, _ := cmd.StdoutPipe()
-		if err := cmd.Start(); err != nil {
-			fmt.Fprintln(os.Stderr, "cannot start child:", err)
-			p.stats["harness_errors"]++
-			return
-		}
-		done := 0
-		sc := bufio.NewScanner(stdout)
-		sc.Buffer(make([]byte, 1<<20), 1<<26)
-		timer := time.AfterFunc(time.Until(deadline)+30*time.Second, func() { cmd.Process.Kill() })
-		for sc.Scan() {
-			line := sc.Text()
-			if strings.HasPrefix(line, "J\t") {
-				done++
-				continue
-			}
-			p.passLine(line)
-		}
-		cmd.Wait()
-		timer.Stop()
-		p.stats["children"]++
-		if done == 0 {
-			done = 1 // never loop on a job that kills the child before reporting
-			p.stats["jobs_lost"]++
-		}
-		if done > len(batch) {
-			done = len(batch)
-		}
-		jobs = jobs[done:]
+		b := jobs[:n]
+		jobs = jobs[n:]
+		return b
 	}
+	var wg sync.WaitGroup
+	for w := 0; w < par; w++ {
+		wg.Add(1)
+		go func() {
+			defer wg.Done()
+			for batch := next(); batch != nil; batch = next() {
+				for len(batch) > 0 {
+					done := p.runChild(batch, deadline, &mu)
+					batch = batch[done:]
+					if time.Now().After(deadline) && len(batch) > 0 {
+						mu.Lock()
+						p.stats["jobs_not_run_time_budget"] += len(batch)
+						mu.Unlock()
+						break
+					}
+				}
+			}
+		}()
+	}
+	wg.Wait()
+}
+
+// runChild runs one child over batch and returns how many jobs it got through (at least one)
+func (p *parent) runChild(batch []job, deadline time.Time, mu *sync.Mutex) int {
+	cmd := exec.Command(p.exe, "-child", "ctl")
+	var in strings.Builder
+	for _, j := range batch {
+		b, _ := json.Marshal(j)
+		in.Write(b)
+		in.WriteByte('\n')
+	}
+	cmd.Stdin = strings.NewReader(in.String())
+	cmd.Stderr = os.Stderr
+	stdout, _ := cmd.StdoutPipe()
+	if err := cmd.Start(); err != nil {
+		fmt.Fprintln(os.Stderr, "cannot start child:", err)
+		mu.Lock()
+		p.stats["harness_errors"]++
+		mu.Unlock()
+		return len(batch)
+	}
+	done := 0
+	sc := bufio.NewScanner(stdout)
+	sc.Buffer(make([]byte, 1<<20), 1<<26)
+	timer := time.AfterFunc(time.Until(deadline)+30*time.Second, func() { cmd.Process.Kill() })
+	for sc.Scan() {
+		line := sc.Text()
+		if strings.HasPrefix(line, "J\t") {
+			done++
+			continue
+		}
+		mu.Lock()
+		p.passLine(line)
+		mu.Unlock()
+	}
+	cmd.Wait()
+	timer.Stop()
+	mu.Lock()
+	p.stats["children"]++
+	if done == 0 {
+		p.stats["jobs_lost"]++
+	}
+	mu.Unlock()
+	if done == 0 {
+		done = 1 // never loop on a job that kills the child before reporting
+	}
+	if done > len(batch) {
+		done = len(batch)
+	}
+	return done
 }
 
 func (p *parent) runStress(seed uint64, cpus string, n, maxNodes int, limit time.Duration, fixed string) {
@@ -1185,6 +1233,32 @@ func (p *parent) runStress(seed uint64, cpus string, n, maxNodes int, limit time
 	}
 }
 
+func (p *parent) runProject(seed uint64, n, maxNodes int, limit time.Duration, fixed string) {
+	args := []string{"-child", "project", "-seed", strconv.FormatUint(seed, 10), "-n", strconv.Itoa(n), "-maxnodes", strconv.Itoa(maxNodes)}
+	if fixed != "" {
+		args = append(args, "-params", fixed)
+	}
+	cmd := exec.Command(p.exe, args...)
+	cmd.Stderr = os.Stderr
+	stdout, _ := cmd.StdoutPipe()
+	if err := cmd.Start(); err != nil {
+		p.stats["harness_errors"]++
+		return
+	}
+	timer := time.AfterFunc(limit, func() { cmd.Process.Kill() })
+	sc := bufio.NewScanner(stdout)
+	sc.Buffer(make([]byte, 1<<20), 1<<26)
+	for sc.Scan() {
+		p.passLine(sc.Text())
+	}
+	err := cmd.Wait()
+	if !timer.Stop() {
+		p.stats["project_child_killed_by_time_budget"]++
+	} else if err != nil {
+		p.stats["project_child_failed"]++
+	}
+}
+
 func main() {
 	seed := flag.Uint64("seed", 1, "")
 	tier := flag.String("tier", "quick", "")
@@ -1203,6 +1277,12 @@ func main() {
 		os.Exit(childCtl())
 	case "stress":
 		os.Exit(childStress(*seed, *n, *maxNodes, *fixedParams))
+	case "project":
+		os.Exit(childProject(*seed, *n, *maxNodes, *fixedParams))
+	case "":
+	default:
+		fmt.Fprintln(os.Stderr, "unknown -child mode", *child)
+		os.Exit(2)
 	}
 	exe, _ := os.Executable()
 	out := bufio.NewWriterSize(os.Stdout, 1<<20)
@@ -1220,8 +1300,10 @@ func main() {
 			fmt.Fprintln(os.Stderr, err)
 			os.Exit(2)
 		}
-		if in.Mode == "schedule" {
-			p.runJobs([]job{{Stream: "runner.replay", Params: in.Params, Strat: "guide", Guide: in.Schedule}}, 1, time.Minute)
+		if in.Mode == "project" {
+			p.runProject(*seed, 200, 1, 2*time.Minute, in.Params)
+		} else if in.Mode == "schedule" {
+			p.runJobs([]job{{Stream: "runner.replay", Params: in.Params, Strat: "guide", Guide: in.Schedule}}, 1, time.Minute, 1)
 		} else {
 			// a free-running failure is replayed by repeating the same graph on the same number of CPUs
 			cpus := "0"
@@ -1234,6 +1316,13 @@ func main() {
 	}
 
 	quick := *tier != "thorough"
+	par := runtime.NumCPU() / 2
+	if par < 1 {
+		par = 1
+	}
+	if par > 8 {
+		par = 8
+	}
 	rg := &rng{*seed}
 	start := time.Now()
 	var jobs []job
@@ -1265,9 +1354,9 @@ func main() {
 	p.stats["model_schedules"] = readScheds(*schedFile, "runner.model")
 
 	// 2. fixed shapes x caps x random and PCT schedules
-	reps := 6
+	reps := 12
 	if !quick {
-		reps = 60
+		reps = 80
 	}
 	for _, g0 := range fixedShapes() {
 		for _, c := range []int{1, 2, 3} {
@@ -1284,9 +1373,9 @@ func main() {
 		}
 	}
 	// 3. random graphs x random and PCT schedules
-	ng := 500
+	ng := 6000
 	if !quick {
-		ng = 12000
+		ng = 40000
 	}
 	for i := 0; i < ng; i++ {
 		g := genGraph(rg, 1+rg.below(6), 1+rg.below(3))
@@ -1310,7 +1399,7 @@ func main() {
 	if !quick {
 		ctlBudget = 5 * time.Minute
 	}
-	p.runJobs(jobs, 400, ctlBudget)
+	p.runJobs(jobs, 250, ctlBudget, par)
 	p.stats["controlled_jobs"] = len(jobs)
 
 	// 4. thorough: every interleaving (sleep sets, shared-state granularity) of graphs with up to 3 nodes
@@ -1323,29 +1412,38 @@ func main() {
 			for _, c := range []int{1, 2} {
 				g := *g0
 				g.cap = c
-				dj = append(dj, job{Stream: "runner.dfs", Params: g.params(), Strat: "dfs", Budget: 40000})
+				dj = append(dj, job{Stream: "runner.dfs", Params: g.params(), Strat: "dfs", Budget: 200000, TimeMs: 200000})
 			}
 		}
-		p.runJobs(dj, 1, 5*time.Minute)
+		p.runJobs(dj, 1, 4*time.Minute, par)
 	} else {
 		var dj []job
-		for _, g0 := range fixedShapes()[:4] {
-			g := *g0
-			g.cap = 1
-			dj = append(dj, job{Stream: "runner.dfs", Params: g.params(), Strat: "dfs", Budget: 300})
+		for _, g0 := range fixedShapes()[:7] {
+			for _, c := range []int{1, 2} {
+				g := *g0
+				g.cap = c
+				dj = append(dj, job{Stream: "runner.dfs", Params: g.params(), Strat: "dfs", Budget: 4000, TimeMs: 12000})
+			}
 		}
-		p.runJobs(dj, 1, 10*time.Second)
+		p.runJobs(dj, 1, 14*time.Second, par)
 	}
 
 	// 5. free-running stress with the real runtime.NumCPU() limit
-	sn, smax := 150, 14
+	sn, smax := 4000, 14
 	sl := 12 * time.Second
 	if !quick {
-		sn, smax, sl = 4000, 40, 100*time.Second
+		sn, smax, sl = 40000, 40, 100*time.Second
 	}
 	for _, cpus := range []string{"0", "0-1", "0-15"} {
 		p.runStress(rg.next(), cpus, sn, smax, sl, "")
 	}
+
+	// 6. the runner under its real client (dawn.Project / runTarget.Evaluate)
+	pn := 250
+	if !quick {
+		pn = 6000
+	}
+	p.runProject(rg.next(), pn, 9, 60*time.Second+time.Duration(pn)*20*time.Millisecond, "")
 
 	p.stats["wall_ms"] = int(time.Since(start).Milliseconds())
 	st := map[string]any{}
